@@ -21,6 +21,8 @@ struct Cn {
     ok_flips: AtomicU64,
     inverses_checked: AtomicU64,
     capped: AtomicU64,
+    recycled_seeds: AtomicU64,
+    key_inversions: AtomicU64,
 }
 
 /// Apply the real flip named by `op` and return the FlipInfo (model::apply hides it).
@@ -202,6 +204,32 @@ fn run_seed<K: Kernel<D, Scalar = f64>, const D: usize>(rep: &Report, cn: &Cn, k
     if pts.len() == D + 2 {
         rep.sample(json!({"D": D, "kernel": kname, "family": family, "points": pts.iter().map(|p| p.to_vec()).collect::<Vec<_>>(), "closure_states": cl.states.len()}), 8);
     }
+    // Same point set, but built so that every vertex slot was occupied and vacated before (corpus::build_recycled):
+    // key order (index, version) and raw key value order then disagree for every pair of vertices, which never
+    // happens on a freshly built triangulation.
+    // (thorough: also with the points listed in reverse, which puts other vertices into the initial simplex, whose
+    // slots are the only ones that keep version 1)
+    let mut orders: Vec<Vec<[f64; D]>> = vec![pts.to_vec()];
+    if cap > 400 {
+        orders.push(pts.iter().rev().copied().collect());
+    }
+    for order in &orders {
+        let Some(dt) = corpus::build_recycled::<K, D>(order, TopologyGuarantee::PLManifold) else { continue };
+        let fam = format!("{family} (recycled vertex slots)");
+        let cl = flip_closure(&dt, true, cap);
+        if cl.capped {
+            cn.capped.fetch_add(1, Ordering::Relaxed);
+        }
+        cn.recycled_seeds.fetch_add(1, Ordering::Relaxed);
+        cn.key_inversions.fetch_add(corpus::key_order_inversions(&dt) as u64, Ordering::Relaxed);
+        // stored coordinates may be perturbed: identify state cells by the stored points
+        let stored: Vec<[f64; D]> = dt.vertices().map(|(_, v)| *v.point().coords()).collect();
+        for (st, _valid, _dist) in &cl.states {
+            cn.states.fetch_add(1, Ordering::Relaxed);
+            let k1: Vec<[f64; D]> = vec![std::array::from_fn(|i| 0.35 + 0.05 * i as f64), [100.0; D]];
+            check_state(rep, cn, kname, &fam, &stored, st, &k1);
+        }
+    }
 }
 
 fn run_family<const D: usize>(rep: &Report, cn: &Cn, family: &str, alphabet: &[[f64; D]], sizes: std::ops::RangeInclusive<usize>, cap: usize, bounds: &mut Vec<Value>) {
@@ -227,7 +255,7 @@ fn main() {
     let rep = Report::new("C07", &args);
     let thorough = args.tier == Tier::Thorough;
     let x = usize::from(thorough);
-    let cn = Cn { states: AtomicU64::new(0), transitions: AtomicU64::new(0), ok_flips: AtomicU64::new(0), inverses_checked: AtomicU64::new(0), capped: AtomicU64::new(0) };
+    let cn = Cn { states: AtomicU64::new(0), transitions: AtomicU64::new(0), ok_flips: AtomicU64::new(0), inverses_checked: AtomicU64::new(0), capped: AtomicU64::new(0), recycled_seeds: AtomicU64::new(0), key_inversions: AtomicU64::new(0) };
     let mut bounds = Vec::new();
     let cap = if thorough { 3000 } else { 400 };
     run_family::<2>(&rep, &cn, "G2(3) subsets", &alpha::grid::<2>(3), 4..=6 + x, cap, &mut bounds);
@@ -250,6 +278,8 @@ fn main() {
         "inverse_moves_checked": cn.inverses_checked.load(Ordering::Relaxed),
         "exhaustive": cn.capped.load(Ordering::Relaxed) == 0,
         "closures_capped": cn.capped.load(Ordering::Relaxed),
+        "seeds_with_recycled_vertex_slots": cn.recycled_seeds.load(Ordering::Relaxed),
+        "vertex_pairs_with_inverted_key_order_in_those_seeds": cn.key_inversions.load(Ordering::Relaxed),
         "rule": "in every state of the (combinatorial, cap-bounded) closure of each small point set under k>=2 flips: every handle that can be formed for the six Edit-API entry points (every (cell, facet index) incl. D+1 and 255, every ridge pair incl. equal indices, every vertex pair / triple / vertex, stale keys, k=1 insertion at an interior and a far point); every successful flip is judged (L1-L2 reference, invariants preserved, FlipInfo accounting, inverse restores the cell set)",
         "bounds": bounds,
     });
